@@ -369,7 +369,9 @@ func (b *c32BlockState) BestBlockHeader() (*types.Header, error)           { ret
 func (b *c32BlockState) GetRuntime(common.Hash) (runtime.Instance, error)  { return c32Runtime{}, nil }
 func (b *c32BlockState) IsPaused() bool                                    { return false }
 func (b *c32BlockState) CompareAndSetBlockData(bd *types.BlockData) error {
-	b.st.events = append(b.st.events, "block-data-stored-without-import")
+	if bd.Body == nil || bd.Header == nil {
+		b.st.events = append(b.st.events, "partial-block-data-stored-without-import")
+	}
 	return nil
 }
 
@@ -570,6 +572,8 @@ func c32Apply(st *c32State, op c32Op) string {
 			st.pending = append(st.pending, "must-reject:"+rp.cause+":reputation-change")
 		case rp.mustReject:
 			st.pending = append(st.pending, "must-reject:"+rp.cause+":no-reputation-change")
+		case punished[rp.who] && rp.spec.dev.kind == "":
+			st.pending = append(st.pending, "honest-response:punished")
 		case punished[rp.who]:
 			st.pending = append(st.pending, "not-required-to-reject:"+rp.spec.dev.kind+":punished")
 		}
@@ -683,27 +687,29 @@ func TestVerif_C32(t *testing.T) {
 	c31Quiet()
 	r := verifmc.NewReport("C32", "fullsync-process", "model_checking")
 	defer r.Write()
-	maxNodes := verifmc.Pick(4, 5)
-	depth := verifmc.Pick(2, 2)
-	maxBatch := verifmc.Pick(2, 3)
-	r.Rule = fmt.Sprintf("for every rooted tree shape with 2..%d nodes (genesis = finalised root): BFS over histories of <= %d Process calls on a fresh "+
-		"FullSyncStrategy with the real blockImporter; one call = a batch of 1..%d responses; response alphabet = every contiguous segment of every "+
+	type runCfg struct{ nodes, depth, batch int }
+	runs := []runCfg{{2, 3, 2}, {3, 3, 2}, {4, 3, 2}, {5, 2, 2}}
+	if verifmc.Thorough() {
+		runs = []runCfg{{2, 3, 3}, {3, 3, 3}, {4, 3, 3}, {5, 2, 3}, {5, 3, 2}, {6, 2, 2}}
+	}
+	r.Rule = fmt.Sprintf("for every rooted tree shape with the given number of nodes (genesis = finalised root) and every (nodes, depth, batch) in %v: BFS over histories of <= depth Process calls on a fresh "+
+		"FullSyncStrategy with the real blockImporter; one call = a batch of 1..batch responses; response alphabet = every contiguous segment of every "+
 		"root-to-leaf path as ascending or descending response, plus (at most one per history, alone or paired with an ascending honest response in either order) "+
 		"every deviation-1 response: forged stated Hash (garbage / any other block's hash) at any position, re-linked parent, number +-1, missing header, "+
-		"missing body, glued uncle+child pair, empty response, uncompleted task; states merged on (known headers, parked fragments incl. stated/real hashes, incomplete blocks, request queue, deviation used)", maxNodes, depth, maxBatch)
+		"missing body, glued uncle+child pair, empty response, uncompleted task; states merged on (known headers, parked fragments incl. stated/real hashes, incomplete blocks, request queue, deviation used)", runs)
 	totalShapes := 0
 	perTree := map[string]any{}
 	r.Extra["per_tree"] = perTree
-	for n := 2; n <= maxNodes; n++ {
-		for _, pv := range c32Shapes(n) {
+	for _, rc := range runs {
+		for _, pv := range c32Shapes(rc.nodes) {
 			if r.Expired() {
-				r.Capped(fmt.Sprintf("deadline before tree %v", pv))
+				r.Capped(fmt.Sprintf("deadline before tree %v of run %v", pv, rc))
 				break
 			}
 			totalShapes++
 			tree := c32NewTree(pv)
-			opsHonest := c32Batches(tree, false, maxBatch)
-			opsAll := c32Batches(tree, true, maxBatch)
+			opsHonest := c32Batches(tree, false, rc.batch)
+			opsAll := c32Batches(tree, true, rc.batch)
 			h := &verifmc.Hist[*c32State]{
 				Fresh: func() *c32State { return c32Fresh(tree) },
 				Ops: func(s *c32State) []verifmc.Op {
@@ -744,10 +750,11 @@ func TestVerif_C32(t *testing.T) {
 					}
 					return ded
 				},
-				Depth: depth,
+				Depth: rc.depth,
 			}
 			h.Explore(r)
-			perTree[fmt.Sprint(pv)] = map[string]any{"completed_depth": r.Extra["completed_depth"], "new_states_per_depth": r.Extra["new_states_per_depth"], "ops_fresh_state": len(opsAll)}
+			perTree[fmt.Sprintf("%v depth<=%d batch<=%d", pv, rc.depth, rc.batch)] = map[string]any{"completed_depth": r.Extra["completed_depth"],
+				"new_states_per_depth": r.Extra["new_states_per_depth"], "ops_fresh_state": len(opsAll)}
 			r.Distinct("tree:" + tree.shape)
 			r.Add("ops_per_fresh_state", int64(len(opsAll)))
 		}
